@@ -145,7 +145,7 @@ def binding_selftest(run, tmp, shards, module, name, already):
     for (eid, code, _d) in v["rejs"]:
         got.setdefault(eid, []).append(code)
     for eid, pref in want.items():
-        codes = [c for c in got.get(eid, []) if not c.startswith("C02.dateUnit")]
+        codes = [c for c in got.get(eid, []) if not c.startswith("C02.dateUnit") and c != "C01.genericMap"]   # recorded findings
         if pref is None and codes:
             raise V.Infra("binding self-test: control event %d rejected: %s" % (eid, codes))
         if pref is not None and not any(c.startswith(pref) for c in codes):
@@ -485,7 +485,7 @@ def plan_c16(run, tmp):
     binding_selftest(run, tmp, shards, "TraceCodec", "extract", set(x[0] for x in v["rejs"]))
     rshards = V.shard_files(out, "rt")
     v2 = V.validate_shards(tmp, "TraceCodec", rshards, "extract_rt")
-    mine = [x for x in v2["rejs"] if V.re.search(r"^(C01|C16|C02\.(wellformed|class|fields|listType))", x[1])]
+    mine = [x for x in v2["rejs"] if V.re.search(r"^(C01|C16|C02\.(wellformed|class|fields|listType))", x[1]) and x[1] != "C01.genericMap"]
     v2["rejs"] = mine
     run.add_validation("extract_rt", v2, dict(evaluations=v2["events"], traces=v2["events"], distinct_nontrivial=0, family_rule="round trips of second values with the maps extracted from each witness"))
     V.judge(run, known, mine, rshards, dict(hx=hxargs, seed=run.seed, tier=run.tier, module="TraceCodec", shard="rt"))
@@ -606,7 +606,7 @@ def plan_pool(run, tmp):
     # objects handed out are usable: a round trip with each (validated by TraceCodec)
     ushards = V.shard_files(out, "use")
     vu = V.validate_shards(tmp, "TraceCodec", ushards, "pooluse")
-    vu["rejs"] = [r for r in vu["rejs"] if not r[1].startswith("C02.dateUnit")]
+    vu["rejs"] = [r for r in vu["rejs"] if not r[1].startswith("C02.dateUnit") and r[1] != "C01.genericMap"]
     run.add_validation("pooluse", vu, dict(evaluations=vu["events"], traces=vu["events"], distinct_nontrivial=0, family_rule="a round trip of a probe value through every object obtained from a pool"))
     V.judge(run, known, vu["rejs"], ushards, dict(hx=["poolseq"], seed=run.seed, tier=run.tier, module="TraceCodec"))
     # (C) code -> spec: concurrent histories, linearizability against the same transitions
